@@ -301,6 +301,14 @@ func checkWriteFaults(c C07Case, o *Obs) error {
 	// neighbourhood of every multiple of 512 and every 41st in between
 	var limits []int
 	for k := 0; k <= total+1; k++ {
+		if total > 30000 {
+			// records beyond 64 KiB: the ends, the neighbourhood of every multiple of 4096, of 64 KiB
+			// from either end, and every 4099th in between
+			if k <= 20 || k >= total-20 || (k+1)%4096 <= 2 || k%4099 == 0 || k-65536 >= -1 && k-65536 <= 1 || k-(total-65536) >= -1 && k-(total-65536) <= 1 {
+				limits = append(limits, k)
+			}
+			continue
+		}
 		if total <= 1500 || k <= 100 || k >= total-100 || k%41 == 0 || (k+2)%512 <= 4 {
 			limits = append(limits, k)
 		}
@@ -441,7 +449,7 @@ func exhaustiveC07(thorough bool, emit func(C07Case) bool) {
 		}
 	}
 	// records of several KB (longer than any block a writer may collect its output in)
-	for i, n := range []int{4000, 4100, 5000, 9000, 20000} {
+	for i, n := range []int{4000, 4100, 5000, 9000, 20000, 66000, 140000} {
 		lfa := FastaRec{Name: gen.B("chr" + strings.Repeat("x", i*20)), Seq: gen.Lit(realDNA(n, i, true, true))}
 		lfq := FastqRec{Name: gen.B("read"), Seq: gen.Lit(realDNA(n, i, true, false)), Quals: gen.Lit(bytes.Repeat([]byte("I#~5"), n/4+1)[:n])}
 		lsam := baseSamRec
@@ -449,6 +457,10 @@ func exhaustiveC07(thorough bool, emit func(C07Case) bool) {
 		lbed := baseBedRec(4)
 		lbed.Name = gen.B(strings.Repeat("feature_", n/8))
 		ltr := gen.TreeSpec{Parents: []int{0, 0, 1, 1}, Names: []gen.B{gen.B(strings.Repeat("r", n/3)), gen.B(strings.Repeat("a b", n/9)), gen.B(strings.Repeat("c", n/3))}, Dists: []gen.F{0, 1.5}}
+		if n > 30000 {
+			// a tree of thousands of named leaves with branch lengths instead of three huge names
+			ltr = gen.TreeSpec{Shape: "broom", N: 3, Fan: n / 16, Names: []gen.B{gen.B("taxon_0001"), gen.B("t 2"), gen.B("inner")}, Dists: []gen.F{0.125, 2.5, 0}}
+		}
 		for _, c := range []C07Case{
 			{Kind: "write", Format: "fasta", Fasta: &lfa}, {Kind: "write", Format: "fastq", Fastq: &lfq},
 			{Kind: "write", Format: "sam", Sam: &lsam}, {Kind: "write", Format: "bed", Bed: &lbed}, {Kind: "write", Format: "newick", Tree: &ltr},
